@@ -78,6 +78,7 @@ def Hint.capsOk (t : Table) : Hint → Bool
   | .mapping o k v => k.capsOk t && v.capsOk t && decide (o < t.rows.length) &&
       t.checkCap o (fun c => bitAt t.sized c && (bitAt t.reiter c && bitAt t.mapping c))
   | .annotated h vs => h.capsOk t && !vs.isEmpty
+  | .generic _ bs => capsOkList t bs && !anyIgnorable bs
 def capsOkList (t : Table) : List Hint → Bool
   | [] => true
   | h :: hs => h.capsOk t && capsOkList t hs
@@ -120,6 +121,9 @@ theorem Hint.wfIn_of_capsOk (t : Table) (pred : Nat → Obj → Bool) :
   | .annotated h vs, hc => by
     simp only [Hint.capsOk, Bool.and_eq_true, Bool.not_eq_true', List.isEmpty_eq_false_iff] at hc
     exact ⟨Hint.wfIn_of_capsOk t pred h hc.1, hc.2⟩
+  | .generic c bs, hc => by
+    simp only [Hint.capsOk, Bool.and_eq_true, Bool.not_eq_true'] at hc
+    exact ⟨wfInList_of_capsOk t pred bs hc.1, hc.2⟩
 theorem wfInList_of_capsOk (t : Table) (pred : Nat → Obj → Bool) :
     ∀ (hs : List Hint), capsOkList t hs = true → WfInList (t.world pred) hs
   | [], _ => by simp [WfInList]
